@@ -7,7 +7,7 @@ import xml.etree.ElementTree as ET
 NS = 'http://www.collada.org/2005/11/COLLADASchema'
 ET.register_namespace('', NS)
 
-KINDS = ['dangling', 'nohash', 'nonnum', 'emptytext', 'rmchild', 'rmattr', 'truncate', 'crossref', 'extref']
+KINDS = ['dangling', 'nohash', 'nonnum', 'emptytext', 'rmchild', 'rmattr', 'truncate', 'crossref', 'extref', 'droptok', 'addtok']
 
 LIBS = {  # library tag -> (item tag, Collada attribute)
     'library_images': ('image', 'images'),
@@ -101,6 +101,9 @@ def enumerate_sites(root, token_cap=None):
                     idx = sorted({0, 1, len(toks) // 2, len(toks) - 1})
                 for t in idx:
                     out.append({'kind': 'nonnum', 'elem': i, 'tok': t, 'tag': tg})
+                # a token too few / too many: the count checks of the loaders
+                out.append({'kind': 'droptok', 'elem': i, 'tok': len(toks) - 1, 'tag': tg})
+                out.append({'kind': 'addtok', 'elem': i, 'tok': 0, 'tag': tg})
     return out
 
 
@@ -153,6 +156,13 @@ def apply_faults(text, faults):
                     el.text = ' '.join(toks)
         elif k == 'emptytext':
             el.text = ''
+        elif k in ('droptok', 'addtok'):
+            toks = (el.text or '').split()
+            if k == 'droptok' and f['tok'] < len(toks):
+                del toks[f['tok']]
+                el.text = ' '.join(toks) if toks else None
+            elif k == 'addtok' and toks:
+                el.text = ' '.join(toks + [toks[0]])
         elif k in ('crossref', 'extref'):
             if f.get('attr'):
                 el.set(f['attr'], f['value'])
@@ -286,7 +296,7 @@ def site_label(f):
     where = f.get('tag', '?')
     if f.get('attr'):
         where += '@' + f['attr']
-    elif f['kind'] in ('nonnum', 'emptytext', 'dangling', 'crossref', 'extref'):
+    elif f['kind'] in ('nonnum', 'emptytext', 'dangling', 'crossref', 'extref', 'droptok', 'addtok'):
         where += '/text'
     return '%s:%s' % (f['kind'], where)
 
@@ -436,3 +446,54 @@ def deferral_pairs(root, sites):
                         continue
                     out.append((b, a))
     return out
+
+
+# ---------------------------------------------------------------- single loader sites (C08 site model)
+
+SITE_TAGS = {'translate': 'KTransform', 'rotate': 'KTransform', 'scale': 'KTransform', 'matrix': 'KTransform',
+             'lookat': 'KTransform', 'material': 'KMaterial', 'light': 'KLight', 'camera': 'KCamera', 'source': 'KFloatSource'}
+
+
+def site_item(text, fault):
+    """the faulted element tree of the loader object (transform, material, light, camera, float
+    source) that contains the fault site -> (kind, xml text of that element) or None"""
+    if 'elem' not in fault:
+        return None
+    root = parse(text)
+    els = elements(root)
+    parents = parent_map(root)
+    e = els[fault['elem']]
+    item = None
+    while e is not None:
+        t = bare(e.tag)
+        p = parents.get(e)
+        pt = bare(p.tag) if p is not None else ''
+        if t in ('translate', 'rotate', 'scale', 'matrix', 'lookat') and pt == 'node':
+            item = e
+        elif t in ('material', 'light', 'camera') and pt == 'library_' + t + 's':
+            item = e
+        elif t == 'source' and pt == 'mesh' and any(bare(c.tag) == 'float_array' for c in e):
+            item = e
+        if item is not None:
+            break
+        e = p
+    if item is None or (fault['kind'] == 'rmchild' and els[fault['elem']] is item):
+        return None
+    data = apply_faults(text, [fault])
+    froot = ET.fromstring(data)
+    # the item keeps its position among the elements that precede the fault site's subtree
+    path = []
+    e = item
+    while parents.get(e) is not None:
+        p = parents[e]
+        path.append(list(p).index(e))
+        e = p
+    cur = froot
+    try:
+        for i in reversed(path):
+            cur = list(cur)[i]
+    except IndexError:
+        return None
+    if bare(cur.tag) != bare(item.tag):
+        return None
+    return SITE_TAGS[bare(item.tag)], ET.tostring(cur, encoding='unicode')
